@@ -1,12 +1,18 @@
-/* C12: mem_replace_arr, generic tables (<= 2 patterns), bounded route: exact-size spans of
- * symbolic size and content, every destination capacity 0..VF_MRA_DST_MAX, libc search
- * functions given by the executable models of stubs/libc_models.h, loops fully unwound. */
+/* C12: mem_replace_arr, generic tables (<= 2 patterns), bounded route: exact-size objects of
+ * symbolic size and content for every span and table, every destination capacity
+ * 0..VF_MRA_DST_MAX, libc search functions given by the executable models of
+ * stubs/libc_models.h, memcpy/memmove by the byte loops of contracts/mem_replace.h, all loops
+ * fully unwound (unwinding assertions). */
+#define VF_BYTE_LOOP_MEMCPY
 #include "contracts/mem_replace.h"
-#include <string.h>
-#include <stdlib.h>
 #include "utils/mem_utils.h"
 #include "stubs/libc_models.h"
 
+#if VF_MRA_DST_MAX <= 8
+#define VF_DST_OPT VF_EXACT8_OPT
+#else
+#define VF_DST_OPT VF_EXACT16_OPT
+#endif
 void harness(void) {
 	VF_NONDET(size_t, src_size);
 	VF_NONDET(size_t, dst_size);
@@ -15,31 +21,35 @@ void harness(void) {
 	VF_NONDET(size_t, s1);
 	VF_NONDET(size_t, d0);
 	VF_NONDET(size_t, d1);
+	VF_NONDET(uint8_t, nulls);	/* which optional pointers are NULL */
 	VF_ASSUME(src_size <= VF_MRA_SRC_MAX && dst_size <= VF_MRA_DST_MAX && repl_count <= VF_MRA_K_MAX);
 	VF_ASSUME(s0 <= VF_MRA_PAT_MAX && s1 <= VF_MRA_PAT_MAX && d0 <= VF_MRA_PAT_MAX && d1 <= VF_MRA_PAT_MAX);
-	VF_FRESH_PTR_OPT(uint8_t, src, src_size);
-	VF_FRESH_PTR_OPT(uint8_t, dst, dst_size);
-	VF_FRESH_PTR(const void *, src_repl, repl_count * sizeof(void *));
-	VF_FRESH_PTR(const void *, dst_repl, repl_count * sizeof(void *));
-	VF_FRESH_PTR(size_t, src_repl_counts, repl_count * sizeof(size_t));
-	VF_FRESH_PTR(size_t, dst_repl_counts, repl_count * sizeof(size_t));
-#ifdef VF_REPLAY
-	size_t ret_s = 0, rep_s = 0, *dst_size_ret = &ret_s, *replaced = &rep_s;
-	size_t sc[2] = { s0, s1 }, dc[2] = { d0, d1 };
-	static const char *nm[4] = { "spat0", "spat1", "dpat0", "dpat1" };
-	for (size_t i = 0; i < repl_count; i ++) {
-		src_repl_counts[i] = sc[i];
-		dst_repl_counts[i] = dc[i];
-		src_repl[i] = vf_replay_alloc(nm[i], sc[i], 0);
-		dst_repl[i] = vf_replay_alloc(nm[2 + i], dc[i], 0);
+	VF_EXACT8_OPT(src, src_size, nulls & 1)
+	VF_DST_OPT(dst, dst_size, nulls & 2)
+	VF_EXACT4(p0, s0)
+	VF_EXACT4(p1, s1)
+	VF_EXACT4(q0, d0)
+	VF_EXACT4(q1, d1)
+	VF_TABLE2(vf_cvp, src_repl_x, repl_count)
+	VF_TABLE2(vf_cvp, dst_repl_x, repl_count)
+	VF_TABLE2(size_t, src_repl_counts, repl_count)
+	VF_TABLE2(size_t, dst_repl_counts, repl_count)
+	if (repl_count > 0) {
+		src_repl_x[0] = p0; dst_repl_x[0] = q0; src_repl_counts[0] = s0; dst_repl_counts[0] = d0;
 	}
-#else
-	size_t *dst_size_ret, *replaced;
-	(void)s0; (void)s1; (void)d0; (void)d1;
-#endif
+	if (repl_count > 1) {
+		src_repl_x[1] = p1; dst_repl_x[1] = q1; src_repl_counts[1] = s1; dst_repl_counts[1] = d1;
+	}
+	/* absent tables are only legal without patterns */
+	const void **src_repl = (repl_count == 0 && (nulls & 4)) ? NULL : src_repl_x;
+	const void **dst_repl = (repl_count == 0 && (nulls & 8)) ? NULL : dst_repl_x;
+	size_t ret_s = 0, rep_s = 0;
+	size_t *dst_size_ret = (nulls & 16) ? NULL : &ret_s, *replaced = (nulls & 32) ? NULL : &rep_s;
+
 	int r = mem_replace_arr(src, src_size, repl_count, NULL, src_repl, src_repl_counts,
 	    dst_repl, dst_repl_counts, dst, dst_size, dst_size_ret, replaced);
+
 	VF_NATIVE_POST(r == 0 || r == EINVAL || r == ENOBUFS, "return code");
-	VF_NATIVE_POST(r != 0 || *dst_size_ret <= dst_size, "reported length inside the capacity");
+	VF_NATIVE_POST(r != 0 || ret_s <= dst_size, "reported length inside the capacity");
 	VF_CANARY("mem_replace harness end");
 }
